@@ -110,10 +110,21 @@ def run_case(case):
                                           'nrows': len(r['rows'])} for r in res]}
     cov['config']['%s/%s%s%s' % (fmt, kind, '/filehash' if filehash else '', '/tfp' if tfp else '')] = 1
     steps = []
+    foreign = rng.random() < 0.3
+    cfg['incoming_dialect'] = foreign
     for r in res:
         steps.append(lab.source(r['name'], r['fields'], r['rows']))
         if r['pk']:
             steps.append(d.set_primary_key(r['pk'], resources=r['name']))
+        if foreign:
+            # the resource arrives describing ANOTHER serialisation (as if loaded from a ';'-delimited latin-1 file):
+            # what the dumper records must describe what it writes
+            steps.append(d.update_resource(r['name'], format=rng.choice(['csv', 'tsv', 'xlsx']), encoding='latin-1',
+                                           mediatype='text/tab-separated-values',
+                                           dialect={'delimiter': ';', 'quoteChar': "'", 'doubleQuote': False,
+                                                    'lineTerminator': '\n', 'skipInitialSpace': True, 'header': True}))
+    if foreign:
+        cov['config']['incoming_dialect'] = 1
     steps.append(d.dump_to_path(out, **opts) if kind == 'path' else d.dump_to_zip(out, **opts))
     dumped = lab.run(steps, validate=True)
     sample = {'config': cfg, 'rows': gen.render(res[0]['rows'][:3], 600)}
